@@ -97,7 +97,6 @@ func verifC08HeaderFooter() {
 	verifCover("c08/headerfooter")
 }
 
-func verifStubPrintGo(r errorReporter, n ast.Node) string { return "<go code>" }
 
 var verifImportPaths = []string{
 	"fmt", "sync", "log",
